@@ -7,7 +7,7 @@ Not decided: that every literal a user can write in a convention is matched by t
 """
 import re
 
-from ..facts import render, strip, fn_key, AnchorLost, cond_str
+from ..facts import render, strip, fn_key, AnchorLost, cond_str, alternatives
 from ..effects import field_reads
 from ..common import check_literal_reader
 from .. import model
@@ -229,10 +229,24 @@ def r6_no_extra_skip(ctx):
                 x = strip(x[1], transparent=False)
             else:
                 break
+        if x[0] == 'phi' and _depth[0] < 4:
+            # an Option / Result merged from arms (a helper that hands back None when the text does not parse): the decision is
+            # in the vocabulary when every arm is selected by decisions that are
+            _depth[0] += 1
+            try:
+                alts = alternatives(cur_body[0], x)
+                ok_ = bool(alts) and all(strip(a_)[0] in ('aggr', 'call', 'field', 'const') for a_, _c in alts) and all(allowed(d_) for _a, cs_ in alts for d_, _v in cs_)
+            except Exception:
+                ok_ = False
+            _depth[0] -= 1
+            return ok_
         return x[0] == 'call' and bool(HEAD_OK.search(x[1]))
+    _depth = [0]
+    cur_body = [None]
     for rx in (r'regex_tokinizer::number::number_regex_parser$', r'regex_tokinizer::money::money_regex_parser$', r'regex_tokinizer::percent::percent_regex_parser$'):
         b = ctx.facts.one(rx)
         ctx.fn(b)
+        cur_body[0] = b
         sites = list(b.calls(r"Tokinizer::(<'a>::)?add_token_location$|Tokinizer::(<'a>::)?add_token_from_match$"))
         if not sites:
             raise AnchorLost('%s creates no token' % fn_key(b.path))
@@ -254,6 +268,7 @@ def r6_no_extra_skip(ctx):
                     if tt['k'] != 'switch' or sb == bid:
                         continue
                     succ = [tg for _, tg in tt['vals']] + [tt['otherwise']]
+                    succ = [x for x in succ if x is not None and x >= 0 and b.blocks[x]['term']['k'] != 'unreachable']   # the `otherwise` of an exhaustive match
                     reach = [(x == bid) or b.can_reach(x, bid, avoid={head}) for x in succ]
                     if any(reach) and not all(reach) and not b.can_reach(bid, sb, avoid={head}):
                         de = b.expr(tt['discr'])
